@@ -1,8 +1,13 @@
 #!/bin/sh
-# run_all.sh [tier]: every claimed check once; one summary line each (plus VIOLATION lines)
+# run_all.sh [tier] [first]: every claimed check once (optionally starting at property <first>); one summary
+# line each (plus VIOLATION lines). Each check holds work/repo.lock, the lock tools/try_seed.py takes while a
+# seeded change is applied to /repo, so the two never overlap.
 cd "$(dirname "$0")/.."
 T=${1:-quick}
+F=${2:-C00}
+mkdir -p work
 for f in tools/props.d/C*.json; do
   p=$(basename $f .json)
-  ./check $p --tier $T 2>&1 | grep -E "^VIOLATION|^  |$T: " | grep -v "^KNOWN" | cut -c1-240
+  [ "$p" \< "$F" ] && continue
+  flock work/repo.lock ./check $p --tier $T 2>&1 | grep -E "^VIOLATION|^  |$T: " | grep -v "^KNOWN" | cut -c1-240
 done
